@@ -12,6 +12,9 @@
 (*   [k |-> "const", v |-> BOOLEAN]   [k |-> "prune"]   [k |-> "quit"]     *)
 (*   [k |-> "print", delim |-> 10 | 0]   [k |-> "printf", fmt |-> chars]   *)
 (*   [k |-> "regex", ast |-> Regex tree, fold]  (syntax: cfg.syn)          *)
+(*   [k |-> "gopt", o |-> "depth"] | [k |-> "gopt", o |-> "maxdepth" |     *)
+(*    "mindepth", n]: global options - true where they stand, in force for *)
+(*    the whole run wherever they stand (the last -maxdepth/-mindepth wins)*)
 (* print / printf words with file |-> 1 | 2 write to that file instead.    *)
 (* Result: the bytes on standard output and in the files, and the number   *)
 (* of diagnosed failures (exit status).                                    *)
@@ -64,6 +67,7 @@ WordEval(tree, cfg, start, e, w) ==
        SRes(GlobMatch(w.pat, Utf8Decode(IF w.on = "name" THEN NameOf(e.path) ELSE e.path), w.fold), NoOut, FALSE, FALSE)
   ELSE IF w.k = "regex" THEN SRes(RX!InLang(w.ast, Utf8Decode(e.path), w.fold), NoOut, FALSE, FALSE)
   ELSE IF w.k = "const" THEN SRes(w.v, NoOut, FALSE, FALSE)
+  ELSE IF w.k = "gopt" THEN SRes(TRUE, NoOut, FALSE, FALSE)
   ELSE IF w.k = "prune" THEN SRes(TRUE, NoOut, FALSE, tree[e.eff].kind = "d")
   ELSE IF w.k = "quit" THEN SRes(TRUE, NoOut, TRUE, FALSE)
   ELSE IF w.k = "print" THEN SRes(TRUE, OnChan(ChanOf(w), e.path \o <<w.delim>>), FALSE, FALSE)
@@ -115,7 +119,15 @@ RootsSem(words, tree, cfg, roots, r, acc) ==
            acc2 == [outs |-> OutCat(acc.outs, x.outs), errs |-> acc.errs + x.errs, sure |-> acc.sure /\ x.sure]
        IN IF x.quit THEN acc2 ELSE RootsSem(words, tree, cfg, roots, r + 1, acc2)
 
-FindResult(words, tree, cfg, roots) == RootsSem(words, tree, cfg, roots, 1, [outs |-> NoOut, errs |-> 0, sure |-> TRUE])
+\* the configuration in force: what stands in front of the expression, overridden by global options inside it
+Gopts(words, o) == SelectSeq(words, LAMBDA w : w.k = "gopt" /\ w.o = o)
+EffCfg(words, cfg) ==
+  LET mx == Gopts(words, "maxdepth")  mn == Gopts(words, "mindepth") IN
+  [cfg EXCEPT !.depth = cfg.depth \/ Gopts(words, "depth") # <<>>,
+              !.max = IF mx = <<>> THEN cfg.max ELSE mx[Len(mx)].n,
+              !.min = IF mn = <<>> THEN cfg.min ELSE mn[Len(mn)].n]
+
+FindResult(words, tree, cfg, roots) == RootsSem(words, tree, EffCfg(words, cfg), roots, 1, [outs |-> NoOut, errs |-> 0, sure |-> TRUE])
 FindOutput(words, tree, cfg, roots) == FindResult(words, tree, cfg, roots).outs[0]
 \* the exit status is 0 iff nothing was diagnosed
 ExitOK(words, tree, cfg, roots, exit) ==
@@ -132,7 +144,8 @@ HasAlt(e) == e.t = "alt" \/ (IF e.t = "cat" THEN HasAlt(e.a) \/ HasAlt(e.b)
 AllEntries(tree, cfg, roots) ==
   Flatten([r \in DOMAIN roots |-> IF roots[r].node = 0 THEN <<>>
                                    ELSE Walk(tree, [cfg EXCEPT !.prune = {}], roots[r].spell, roots[r].node, 0, {}).ents])
-SemDom(words, tree, cfg, roots) ==
+SemDom(words, tree, cfg0, roots) ==
+  LET cfg == EffCfg(words, cfg0) IN
   /\ SemParse(words).ok
   /\ \A i, j \in DOMAIN words : (i # j /\ IsAction(words[i]) /\ IsAction(words[j]) /\ ChanOf(words[i]) # 0) => ChanOf(words[i]) # ChanOf(words[j])
   /\ \A i \in DOMAIN words :
